@@ -298,12 +298,19 @@ def case_gensys(case, col=None):
         rules = case["rules"]
         _GS[0] += 1
         name = f"gsys{_GS[0]}"
-        lines = [f"@system {name} using international"] + [f"    {new}: {old}" if form == "pair" else f"    {new}" for new, old, form in rules] + ["@end"]
+        hw = case.get("header_ws", " ")  # column-aligned headers: any run of blanks / tabs separates the words
+        grp = case.get("group", "international")
+        lines = [f"@system{hw}{name}{hw}using{hw}{grp}"] + [f"    {new}: {old}" if form == "pair" else f"    {new}" for new, old, form in rules] + ["@end"]
         if col is not None:
             col.case(("gs", str(rules), case["probe"], str(case["x"])), True, sample={"lines": lines, "probe": case["probe"]}, cls="+".join(sorted({f for _, _, f in rules})))
         s, r = attempt(ureg.load_definitions, lines)
         if s == "err":
             raise Violation(f"valid_system_refused:{exc_class(r)}", f"{lines}: {r!r}")
+        # the members are those of the groups named after 'using'
+        want_members = R.group_members(grp) if hasattr(R, "group_members") else None
+        got_members = set(ureg.get_system(name, False).members)
+        if want_members is not None and got_members != set(want_members):
+            raise Violation("generated_system_members_differ_from_using_clause", f"{lines}: {len(got_members)} members, the group {grp!r} has {len(set(want_members))}")
         x = Fraction(case["x"])
         u = case["probe"]
         ru = R.resolve(u)
@@ -375,7 +382,7 @@ def run_gensys(task, tier, seed, col):
             new = draw(st.sampled_from(cands[old]))
             form = draw(st.sampled_from(["single", "pair"]))
             rules.append([new, old, form])
-        return {"rules": rules, "probe": draw(st.sampled_from(probes)), "x": 1}
+        return {"rules": rules, "probe": draw(st.sampled_from(probes)), "x": 1, "header_ws": draw(st.sampled_from([" ", "  ", "\t", " \t ", "    "])), "group": draw(st.sampled_from(["international", "international", "Textile", "USCSLiquidVolume"]))}
 
     hyp_search(col, strat(), lambda c: case_gensys(c, col), max_examples=60 if tier == "quick" else 1200, seed=seed * 233, shrink_budget_s=60)
 
